@@ -1157,7 +1157,9 @@ impl<Sink: TokenSink> XmlTokenizer<Sink> {
         loop {
             #[cfg(feature = "verif")]
             markup5ever::verif::tick(4);
-            if !matches!(self.eof_step(), ProcessResult::Continue) {
+            // A tag emitted at EOF can make the sink answer `Script`; there is no
+            // more input to suspend for, so keep going until the EOF token is out.
+            if matches!(self.eof_step(), ProcessResult::Done) {
                 break;
             }
         }
